@@ -327,8 +327,8 @@ theorem build_visitStmt (cfg : Config) (F G : Val → M Val) : ∀ (s : Stmt) (e
           cases h
           have hcnt : count = normCount c := by
             cases c <;> first
-              | (simp only [ofVal, buildVal, pure, Except.pure] at hcount; cases hcount; rfl)
-              | (simp [ofVal, buildVal, throw_eq] at hcount)
+              | (simp only [ofVal, subCount, buildVal, pure, Except.pure] at hcount; cases hcount; rfl)
+              | (simp [ofVal, subCount, buildVal, throw_eq] at hcount)
           exact ⟨_, rfl, ⟨rfl, by simp, ⟨c, hc, hcnt⟩, hrel⟩, by simpa [Fresh] using hfr, hk', hx, hm⟩
   | .loop count body, e, f, ctx, st, st1, o, hv, hk, h => by
     simp only [visitStmt] at hv
